@@ -158,10 +158,17 @@ class LoopSpec:
 
     # ------------------------------------------------------------------
     def _assigned(self, st):
+        """Locals of the enclosing function assigned in st (comprehension variables and nested functions have their own scope)."""
         names = set()
-        for n in ast.walk(st):
-            if isinstance(n, ast.Name) and isinstance(n.ctx, (ast.Store, ast.Del)):
-                names.add(n.id)
+
+        def visit(node):
+            for ch in ast.iter_child_nodes(node):
+                if isinstance(ch, (ast.ListComp, ast.SetComp, ast.DictComp, ast.GeneratorExp, ast.Lambda, ast.FunctionDef, ast.AsyncFunctionDef, ast.ClassDef)):
+                    continue
+                if isinstance(ch, ast.Name) and isinstance(ch.ctx, (ast.Store, ast.Del)):
+                    names.add(ch.id)
+                visit(ch)
+        visit(st)
         return names
 
     def _check_modifies(self, st, extra=()):
@@ -213,6 +220,16 @@ class LoopSpec:
         if names:
             cx.state['weak_invariant'] = f'loop assigns locals outside the invariant vocabulary: {names}'
 
+    def _inv(self, E, cx, env, entry, lab):
+        """The invariant at this program point; when it mentions a local that is not (yet) assigned here, the invariant is not expressible for
+        this code: every verdict on this path is downgraded to undecided (contract needs attention), never a violation."""
+        try:
+            return self.inv(E, cx, env, entry)
+        except KeyError as e:
+            cx.state['weak_invariant'] = f'loop invariant of {lab} mentions the local {e} which is not assigned at this point'
+            cx.oblige(f'loop-invariant-expressible.{lab}', z3.BoolVal(False), 'loop-init', None, assume_after=False)
+            raise PathEnd('invariant not expressible')
+
     def _label(self, fr, st):
         return f'loop{st.lineno}'
 
@@ -221,12 +238,12 @@ class LoopSpec:
         unknown = [n for n in unknown if n not in self._iteration_temporaries(st, fr, unknown)]
         lab = self._label(fr, st)
         entry = dict(fr.locals)
-        _inv_oblige(cx, self.inv(E, cx, fr.locals, entry), f'loop-init.{lab}', 'loop-init', st.lineno)
+        _inv_oblige(cx, self._inv(E, cx, fr.locals, entry, lab), f'loop-init.{lab}', 'loop-init', st.lineno)
         ch = cx.choice(2, lab)
         fr.locals.update(self.havoc(E, cx, fr.locals, entry))
         self._havoc_unknown(E, cx, fr, unknown)
         self.after_havoc(E, cx, fr.locals, entry)
-        _inv_assume(cx, self.inv(E, cx, fr.locals, entry))
+        _inv_assume(cx, self._inv(E, cx, fr.locals, entry, lab))
         c = E.eval(st.test, fr, cx)
         if ch == 0:
             self._assume_cond(E, cx, c, True)
@@ -238,7 +255,7 @@ class LoopSpec:
             except _Break:
                 return
             self.ghost_step(E, cx, fr.locals, entry)
-            _inv_oblige(cx, self.inv(E, cx, fr.locals, entry), f'loop-preserve.{lab}', 'loop-preserve', st.lineno)
+            _inv_oblige(cx, self._inv(E, cx, fr.locals, entry, lab), f'loop-preserve.{lab}', 'loop-preserve', st.lineno)
             if m0 is not None:
                 m1 = self.measure(E, cx, fr.locals, entry)
                 self._decreases(cx, lab, m0, m1, st.lineno)
@@ -284,7 +301,7 @@ class LoopSpec:
         entry = dict(fr.locals)
         n_len = self.seq_len(E, cx, it)
         fr.locals[self.index_name] = 0
-        _inv_oblige(cx, self.inv(E, cx, fr.locals, entry), f'loop-init.{lab}', 'loop-init', st.lineno)
+        _inv_oblige(cx, self._inv(E, cx, fr.locals, entry, lab), f'loop-init.{lab}', 'loop-init', st.lineno)
         ch = cx.choice(2, lab)
         fr.locals.update(self.havoc(E, cx, fr.locals, entry))
         self._havoc_unknown(E, cx, fr, unknown)
@@ -292,7 +309,7 @@ class LoopSpec:
         cx.assume(i.e >= 0)
         fr.locals[self.index_name] = i
         self.after_havoc(E, cx, fr.locals, entry)
-        _inv_assume(cx, self.inv(E, cx, fr.locals, entry))
+        _inv_assume(cx, self._inv(E, cx, fr.locals, entry, lab))
         if ch == 0:
             cx.assume(i.e < b2z_int(n_len))
             if not cx.feasible():
@@ -308,7 +325,7 @@ class LoopSpec:
                 return
             fr.locals[self.index_name] = i + 1
             self.ghost_step(E, cx, fr.locals, entry)
-            _inv_oblige(cx, self.inv(E, cx, fr.locals, entry), f'loop-preserve.{lab}', 'loop-preserve', st.lineno)
+            _inv_oblige(cx, self._inv(E, cx, fr.locals, entry, lab), f'loop-preserve.{lab}', 'loop-preserve', st.lineno)
             raise PathEnd('inductive step complete')
         else:
             cx.assume(i.e == b2z_int(n_len))
